@@ -7,6 +7,7 @@ import UnicLocale.Model.Ops
 import UnicLocale.Model.Cmp
 import UnicLocale.Model.Macros
 import UnicLocale.Model.Serde
+import UnicLocale.Model.Glue
 import Lean.Data.Json.Parser
 import UnicLocale.Spec.Grammar
 import UnicLocale.Spec.Locale
@@ -640,6 +641,67 @@ def answer (line : String) : String :=
           | "variant" => one (Variant.fromBytes v)
           | _ => "bad"
       | _ => "bad"
+    | "liiter" | "liiterp" =>
+      match a with
+      | [fl, ls] =>
+        match unhexList ls with
+        | none => "bad"
+        | some toks =>
+          let m := match LangId.parseIter toks (flagOf fl) with
+            | .ok (x, rest) => s!"ok {renderLi x};str={esc x.display};rest={escList rest}"
+            | .err e => errCode e
+            | .panic => "panic"
+          -- the declarative reader applies when the list is what `split` could have produced
+          if !(flagOf fl) && !toks.isEmpty && toks.all (fun t => t.all (fun b => !isSep b)) then
+            let sp := match Spec.langIdResult (join toks) with
+              | .ok x => s!"ok {renderSpecLi x};str={esc (Spec.canonLangId x)};rest="
+              | .invalidLanguage => "err L"
+              | .invalidSubtag => "err S"
+            withSpec m sp
+          else m
+      | _ => "bad"
+    | "rawref" =>
+      match a with
+      | kind :: h :: more =>
+        match unhex h with
+        | none => "bad"
+        | some v =>
+          match kind with
+          | "lang" =>
+            match Language.fromBytes v with
+            | .ok (some s) => s!"ok {pack s}"
+            | .ok none => "ok none"
+            | _ => "err"
+          | "script" => match Script.fromBytes v with
+            | .ok s => s!"ok {esc s}"
+            | _ => "err"
+          | "region" => match Region.fromBytes v with
+            | .ok s => s!"ok {esc s}"
+            | _ => "err"
+          | "variant" => match Variant.fromBytes v with
+            | .ok s =>
+              let other := ((more[0]?).bind unhex).getD []
+              let e := b01 (s == other)
+              s!"ok {pack s} {e}{e}"
+            | _ => "err"
+          | _ => "bad"
+      | _ => "bad"
+    | "exttype" =>
+      match (a[0]?).bind String.toNat? with
+      | some n =>
+        if n < 256 then
+          match ExtType.fromByte n with
+          | .ok t => s!"ok {esc [ExtType.displayOf n t]}"
+          | .err e => errCode e
+          | .panic => "panic"
+        else "bad"
+      | none => "bad"
+    | "errdisp" =>
+      let texts := [Err.invalidLanguage.text, Err.invalidSubtag.text, unknownErrorText, parserErrorText .invalidSubtag,
+        Err.invalidLanguage.text, Err.invalidSubtag.text, Err.invalidExtension.text, langIdErrorText, langIdErrorText,
+        (match Locale.fromBytes [45] with | .err e => parserErrorText e | _ => "-"),
+        (match Locale.fromBytes [101, 110, 45, 117, 45, 99] with | .err e => parserErrorText e | _ => "-")]
+      "ok " ++ "|".intercalate (texts.map fun t => esc (t.toUTF8.toList.map (·.toNat)))
     | "hist" => ansHistBoth a
     | "serto" => match arg 0 with
       | some v => ansSerTo v
